@@ -42,6 +42,7 @@
 #include "ompl/base/spaces/special/SphereStateSpace.h"
 #include "ompl/base/spaces/special/TorusStateSpace.h"
 #include "ompl/util/Console.h"
+#include "ompl/util/Exception.h"
 #include "ompl/util/RandomNumbers.h"
 
 #include <boost/math/constants/constants.hpp>
@@ -322,6 +323,8 @@ struct Space
     json d;
     ob::StateSpacePtr sp;
     bool exact{true};  // lattice values are exactly representable where the case split happens
+    bool isSetUp{true};  // StateSpace::setup() refuses a space (or component) of zero extent; bounds
+                         // enforcement and the samplers do not need setup(), so those are used without
 
     std::vector<Leaf> leavesOf(const ob::State *s) const
     {
@@ -339,12 +342,36 @@ struct Space
         for (std::size_t i = 0; i < ls.size(); ++i)
             setLeafValues(ls[i], latticeValues(ls[i], *xs[i]));
     }
+    // "unchanged": bit-identical, or within tol per value.  A quaternion is compared as the rotation it
+    // represents (the library's own SO3 equalStates does the same): directions within tol, norms within
+    // the resolution at which SO3 defines "in bounds" (1e-9) - enforceBounds only rescales.
     bool same(const ob::State *a, const ob::State *b, double tol) const
     {
         auto la = leavesOf(a), lb = leavesOf(b);
         for (std::size_t i = 0; i < la.size(); ++i)
         {
             auto va = leafValues(la[i]), vb = leafValues(lb[i]);
+            if (va == vb)
+                continue;
+            if (tol == 0.0)
+                return false;
+            if (la[i].t == "SO3")
+            {
+                double na = 0, nb = 0;
+                for (int k = 0; k < 4; ++k)
+                {
+                    na += va[k] * va[k];
+                    nb += vb[k] * vb[k];
+                }
+                na = std::sqrt(na);
+                nb = std::sqrt(nb);
+                if (!(na > 0) || !(nb > 0) || !(std::fabs(na - nb) <= 2e-9))
+                    return false;
+                for (int k = 0; k < 4; ++k)
+                    if (!(std::fabs(va[k] / na - vb[k] / nb) <= tol))
+                        return false;
+                continue;
+            }
             for (std::size_t k = 0; k < va.size(); ++k)
                 if (!(va[k] == vb[k]) && !(std::fabs(va[k] - vb[k]) <= tol))
                     return false;
@@ -404,7 +431,14 @@ static Space makeSpace(const std::string &name, const json &d)
     S.name = name;
     S.d = d;
     S.sp = build(d);
-    S.sp->setup();
+    try
+    {
+        S.sp->setup();
+    }
+    catch (const ompl::Exception &)
+    {
+        S.isSetUp = false;
+    }
     S.exact = exactDescriptor(d);
     verifyBuilt(d, S.sp.get());
     return S;
@@ -486,11 +520,19 @@ static std::string classifyLeaf(const Leaf &L, bool &nontrivial)
     return c;
 }
 
-static std::string classify(const Space &S, const ob::State *s, bool &nontrivial)
+// classes of all leaves of a state: joined string for reports; the non-trivial ones (a clamp side, a
+// wrap, a degenerate width, a normalisation regime) are added to `hit`, prefixed with the space kind
+static std::string classify(const Space &S, const ob::State *s, const std::string &prefix, std::map<std::string, long> &hit)
 {
     std::set<std::string> parts;
     for (auto &L : S.leavesOf(s))
-        parts.insert(classifyLeaf(L, nontrivial));
+    {
+        bool nontrivial = false;
+        const std::string c = classifyLeaf(L, nontrivial);
+        parts.insert(c);
+        if (nontrivial)
+            ++hit[prefix + "/" + c];
+    }
     std::string c;
     for (auto &p : parts)
         c += (c.empty() ? "" : "+") + p;
@@ -586,8 +628,7 @@ static int replayEnforce(const std::string &casesPath, const std::string &traceP
         std::vector<int> inb0, same1, inb1, same2, match;
     };
     std::map<int, Obs> obs;
-    std::map<std::string, long> classes;
-    std::set<std::string> nontrivialClasses;
+    std::map<std::string, long> classes;  // non-trivial leaf classes hit, per space kind
     Failures fails;
     long cases = 0;
     for (std::size_t r = 1; r < rows.size(); ++r)
@@ -600,11 +641,7 @@ static int replayEnforce(const std::string &casesPath, const std::string &traceP
         const Space &S = it->second;
         ob::State *s = S.sp->allocState();
         S.setLattice(s, c["x"]);
-        bool nontrivial = false;
-        const std::string cls = S.name.substr(0, S.name.find('-')) + "/" + classify(S, s, nontrivial);
-        ++classes[cls];
-        if (nontrivial)
-            nontrivialClasses.insert(cls);
+        const std::string cls = classify(S, s, S.name.substr(0, S.name.find('-')), classes);
 
         const bool inb0 = S.sp->satisfiesBounds(s);
         const bool inbAgrees = !S.exact || inb0 == c["inb"].get<bool>();
@@ -663,11 +700,8 @@ static int replayEnforce(const std::string &casesPath, const std::string &traceP
     json cl = json::object();
     for (auto &c : classes)
         cl[c.first] = c.second;
-    json nt = json::array();
-    for (auto &c : nontrivialClasses)
-        nt.push_back(c);
     std::cout << "SUMMARY " << json{{"cases", cases}, {"failures", fails.total}, {"settings", obs.size()},
-                                    {"classes", cl}, {"nontrivial", nt}}.dump() << std::endl;
+                                    {"classes", cl}}.dump() << std::endl;
     return 0;
 }
 
@@ -875,7 +909,10 @@ static int replayAttempts(const std::string &casesPath, const std::string &trace
                     queries += (long)a.chk->asked.size();
                     requeries += a.chk->requery;
                     const long expectedRequery = (kind == "obstacle" && eret && eidx == (int)script.size()) ? 1 : 0;
-                    if (a.chk->requery != expectedRequery)
+                    // two draws clamped to the same corner are one state for the predicate: the run no longer
+                    // consumes the script in the model's order, so only the contract is judged on it
+                    const bool coincident = a.chk->requery != expectedRequery;
+                    if (coincident)
                         ++unexpectedRequery;
                     json ex{{"case", c}, {"arena", a.name}, {"mode", mode == 0 ? "sample" : "sampleNear"},
                             {"returned", ret}, {"returned_query", k + 1}, {"in_bounds", inb},
@@ -884,7 +921,9 @@ static int replayAttempts(const std::string &casesPath, const std::string &trace
                         fails.add("attempts:" + kind + (!val ? (k < 0 ? ":returned-unchecked-state" : ":returned-invalid-state") :
                                                                ":returned-out-of-bounds"), ex);
                     // implementation drift against the transcription (not a verdict)
-                    if (ret != eret)
+                    if (coincident)
+                        ;
+                    else if (ret != eret)
                         drift.add("drift:" + kind + ":flag", ex);
                     else if (k + 1 != eidx)
                         drift.add("drift:" + kind + ":index", ex);
@@ -917,7 +956,7 @@ static int replayAttempts(const std::string &casesPath, const std::string &trace
     for (auto &p : failuresReturned)
         fr[p.first] = p.second;
     std::cout << "SUMMARY " << json{{"cases", rows.size()}, {"runs", runs}, {"failures", fails.total}, {"drift", drift.total},
-                                    {"queries", queries}, {"requeries", requeries}, {"unexpected_requery", unexpectedRequery},
+                                    {"queries", queries}, {"requeries", requeries}, {"coincident_state_runs", unexpectedRequery},
                                     {"per_kind", pk}, {"returned_true", sc}, {"returned_false", fr}}.dump() << std::endl;
     return 0;
 }
@@ -1076,7 +1115,7 @@ static std::vector<std::pair<std::string, json>> recordSpaces()
             out.push_back({"Mobius/" + n, compD("Mobius", {so2D(), r1}, {1, 1})});
         }
     }
-    json rpi{{"t", "RV"}, {"lo", {0}}, {"hi", {8}}, {"un", 1}, {"ud", 8}, {"upi", true}};
+    json rpi{{"t", "RV"}, {"lo", json::array({0})}, {"hi", json::array({8})}, {"un", 1}, {"ud", 8}, {"upi", true}};
     out.push_back({"SO2", so2D()});
     out.push_back({"SO3", so3D()});
     out.push_back({"Time/unbounded", timeD(nullptr)});
@@ -1099,7 +1138,7 @@ struct SamplerChoice
 static std::vector<SamplerChoice> samplerChoices(const Space &S)
 {
     std::vector<SamplerChoice> out{{"own", nullptr}};
-    if (S.d["t"] == "C")
+    if (S.d["t"] == "C" && S.isSetUp)  // subspace samplers copy by substate locations, computed in setup()
     {
         const auto *c = S.sp->as<ob::CompoundStateSpace>();
         for (unsigned int i = 0; i < c->getSubspaceCount(); ++i)
@@ -1303,10 +1342,7 @@ static int record(const std::string &tracePath, int seeds)
             {
                 smp->sampleUniform(s);
                 perturb(S, s, m, rng);
-                bool nt = false;
-                const std::string cls = classify(S, s, nt);
-                if (nt)
-                    ++nontrivial[S.name.substr(0, S.name.find('/')) + "/" + cls];
+                const std::string cls = classify(S, s, S.name.substr(0, S.name.find('/')), nontrivial);
                 ob::State *s0 = S.clone(s);
                 inb0.push_back(S.sp->satisfiesBounds(s));
                 S.sp->enforceBounds(s);
@@ -1420,6 +1456,7 @@ static int record(const std::string &tracePath, int seeds)
         }
     for (auto &b : badSamples)
         std::cout << "BAD " << b.dump() << std::endl;
+    std::cout << "NBAD " << badSamples.size() << std::endl;
     json nt = json::object(), vt_ = json::object(), vf = json::object();
     for (auto &c : nontrivial)
         nt[c.first] = c.second;
